@@ -1,10 +1,831 @@
 package main
 
 import (
+	"encoding/json"
+	"fmt"
+	"go/types"
 	"os"
+	"os/exec"
 	"path/filepath"
 	"strings"
+
+	"golang.org/x/tools/go/ssa"
 )
+
+// ---------------------------------------------------------------------------------------------
+// Counterexample replay: the solver's model of the inputs is rendered as Go values (by reflection, inside an
+// in-package test injected with `go test -overlay`), the REAL function is run on them, and its observable outputs
+// (results, panic, post-state of scalar fields reachable from the arguments) are compared with the values the model
+// predicts. If they agree, the model describes a real execution, and since the model falsifies the clause, the real
+// code violates the clause on that input: the counterexample is confirmed.
+// ---------------------------------------------------------------------------------------------
+
+type vnode struct {
+	Kind   string // int, bool, big, ptr, struct, bytes, array, nilonly, skip
+	Term   string
+	Big    string
+	Type   types.Type
+	Names  []string
+	Fields []*vnode
+	Elems  []string // element terms (bytes / arrays)
+	Len    string
+	Path   string
+}
+
+type lookupRec struct {
+	global *ssa.Global
+	mapT   *types.Map
+	key    string
+	mapV   string
+}
+
+type ReplayPlan struct {
+	fn      *ssa.Function
+	args    []*vnode
+	results []*vnode
+	post    []*vnode // same shape as args, evaluated in the exit state
+	lookups []lookupRec
+	lvals   []*vnode
+	terms   []string
+}
+
+func (g *Gen) heapSymIn(st *State, name string) (string, bool) {
+	if st != nil {
+		if t, ok := st.h[name]; ok {
+			return t, true
+		}
+		sym := quote(fmt.Sprintf("%s@e%d", name, st.epoch))
+		if g.declared[sym] {
+			return sym, true
+		}
+		return "", false
+	}
+	sym := quote(name + "@e0")
+	if g.declared[sym] {
+		return sym, true
+	}
+	return "", false
+}
+
+// node builds the value tree of a term of Go type t in state st (nil = entry state), never declaring new symbols.
+func (g *Gen) node(term string, t types.Type, st *State, depth int, path string) *vnode {
+	n := &vnode{Term: term, Type: t, Path: path, Kind: "skip"}
+	if isBigIntPtr(t) {
+		n.Kind = "big"
+		if h, ok := g.heapSymIn(st, "BigVal"); ok {
+			n.Big = app("select", h, term)
+		}
+		return n
+	}
+	switch u := t.Underlying().(type) {
+	case *types.Basic:
+		switch {
+		case u.Info()&types.IsBoolean != 0:
+			n.Kind = "bool"
+		case u.Info()&types.IsInteger != 0:
+			n.Kind = "int"
+		}
+	case *types.Pointer:
+		su, ok := u.Elem().Underlying().(*types.Struct)
+		if !ok || depth >= 2 {
+			n.Kind = "nilonly"
+			return n
+		}
+		n.Kind = "ptr"
+		for i := 0; i < su.NumFields(); i++ {
+			f := su.Field(i)
+			ft := f.Type()
+			var fn *vnode
+			if at, isArr := ft.Underlying().(*types.Array); isArr {
+				heapA := "FA:" + typeStr(u.Elem()) + "." + f.Name()
+				id, okID := g.fieldIDs[heapA]
+				eh, okE := g.heapSymIn(st, "Elems:"+typeStr(at.Elem()))
+				if okID && okE && at.Len() <= 32 && g.sorts.SortOf(at.Elem()) == SInt {
+					fn = &vnode{Kind: "array", Type: ft, Path: path + "." + f.Name()}
+					ref := app("fa", fmt.Sprint(id), term)
+					for k := int64(0); k < at.Len(); k++ {
+						fn.Elems = append(fn.Elems, app("select", app("select", eh, ref), fmt.Sprint(k)))
+					}
+				}
+			} else {
+				name := "F:" + typeStr(u.Elem()) + "." + f.Name()
+				if h, ok := g.heapSymIn(st, name); ok {
+					fn = g.node(app("select", h, term), ft, st, depth+1, path+"."+f.Name())
+				}
+			}
+			if fn != nil && fn.Kind != "skip" {
+				n.Names = append(n.Names, f.Name())
+				n.Fields = append(n.Fields, fn)
+			}
+		}
+	case *types.Slice:
+		if b, ok := u.Elem().Underlying().(*types.Basic); ok && b.Kind() == types.Uint8 {
+			n.Kind = "bytes"
+			n.Len = app("sl.len", term)
+			if eh, ok := g.heapSymIn(st, "Elems:"+typeStr(u.Elem())); ok {
+				for k := 0; k < 48; k++ {
+					n.Elems = append(n.Elems, app("select", app("select", eh, app("sl.base", term)), app("+", app("sl.off", term), fmt.Sprint(k))))
+				}
+			}
+		} else {
+			n.Kind = "nilonly"
+			n.Term = app("sl.base", term)
+		}
+	case *types.Struct:
+		dt := g.sorts.structDT(t, u)
+		n.Kind = "struct"
+		for i := 0; i < u.NumFields(); i++ {
+			fn := g.node(app(dt.Fields[i].Name, term), u.Field(i).Type(), st, depth+1, path+"."+u.Field(i).Name())
+			if fn.Kind != "skip" && fn.Kind != "nilonly" {
+				n.Names = append(n.Names, u.Field(i).Name())
+				n.Fields = append(n.Fields, fn)
+			}
+		}
+	case *types.Interface, *types.Map, *types.Chan, *types.Signature:
+		n.Kind = "nilonly"
+	}
+	return n
+}
+
+func (n *vnode) collect(out *[]string) {
+	if n == nil {
+		return
+	}
+	switch n.Kind {
+	case "int", "bool", "nilonly":
+		*out = append(*out, n.Term)
+	case "big":
+		*out = append(*out, n.Term)
+		if n.Big != "" {
+			*out = append(*out, n.Big)
+		}
+	case "ptr":
+		*out = append(*out, n.Term)
+	case "bytes":
+		*out = append(*out, n.Len, app("=", n.Term, "nilslice"))
+	}
+	*out = append(*out, n.Elems...)
+	for _, f := range n.Fields {
+		f.collect(out)
+	}
+}
+
+// buildReplayPlan is called once per verified function, after the body has been translated.
+func (fr *Frame) buildReplayPlan(exit *State, results []Val) *ReplayPlan {
+	g := fr.g
+	fn := fr.fn
+	if fn.Parent() != nil || len(fn.FreeVars) > 0 {
+		return nil // closures cannot be called from a test
+	}
+	rp := &ReplayPlan{fn: fn, lookups: g.lookups}
+	for i, p := range fn.Params {
+		v := fr.vals[p]
+		rp.args = append(rp.args, g.node(v.T, p.Type(), nil, 0, fmt.Sprintf("arg%d", i)))
+		rp.post = append(rp.post, g.node(v.T, p.Type(), exit, 0, fmt.Sprintf("arg%d", i)))
+	}
+	for i, r := range results {
+		rp.results = append(rp.results, g.node(r.T, r.Go, exit, 1, fmt.Sprintf("res%d", i)))
+	}
+	for _, l := range rp.lookups {
+		_, val, _ := g.mapHeaps(l.mapT)
+		dom := strings.Replace(val, "MapVal:", "MapDom:", 1)
+		dh, ok1 := g.heapSymIn(nil, dom)
+		vh, ok2 := g.heapSymIn(nil, val)
+		if !ok1 || !ok2 {
+			rp.lvals = append(rp.lvals, nil)
+			continue
+		}
+		n := g.node(app("select", app("select", vh, l.mapV), l.key), l.mapT.Elem(), nil, 1, "lookup")
+		n.Len = app("select", app("select", dh, l.mapV), l.key) // presence
+		rp.lvals = append(rp.lvals, n)
+	}
+	for _, n := range rp.args {
+		n.collect(&rp.terms)
+	}
+	for _, n := range rp.post {
+		n.collect(&rp.terms)
+	}
+	for _, n := range rp.results {
+		n.collect(&rp.terms)
+	}
+	for i, n := range rp.lvals {
+		if n != nil {
+			rp.terms = append(rp.terms, rp.lookups[i].key, n.Len)
+			n.collect(&rp.terms)
+		}
+	}
+	return rp
+}
+
+// ---------------------------------------------------------------------------------------------
+
+type modelVals map[string]string
+
+func smtInt(s string) (string, bool) {
+	s = strings.TrimSpace(s)
+	if strings.HasPrefix(s, "(- ") && strings.HasSuffix(s, ")") {
+		in := strings.TrimSpace(s[3 : len(s)-1])
+		if isDigits(in) {
+			return "-" + in, true
+		}
+		return "", false
+	}
+	if isDigits(s) {
+		return s, true
+	}
+	return "", false
+}
+
+func isDigits(s string) bool {
+	if s == "" {
+		return false
+	}
+	for _, c := range s {
+		if c < '0' || c > '9' {
+			return false
+		}
+	}
+	return true
+}
+
+// spec renders a value tree under a model as a JSON-able value specification.
+func (n *vnode) spec(m modelVals) (map[string]interface{}, bool) {
+	switch n.Kind {
+	case "int":
+		v, ok := smtInt(m[n.Term])
+		if !ok {
+			return nil, false
+		}
+		return map[string]interface{}{"k": "int", "v": v}, true
+	case "bool":
+		return map[string]interface{}{"k": "bool", "v": m[n.Term] == "true"}, true
+	case "nilonly":
+		v, ok := smtInt(m[n.Term])
+		if ok && v == "0" {
+			return map[string]interface{}{"k": "nil"}, true
+		}
+		return map[string]interface{}{"k": "opaque"}, true
+	case "big":
+		ref, ok := smtInt(m[n.Term])
+		if !ok {
+			return nil, false
+		}
+		if ref == "0" {
+			return map[string]interface{}{"k": "nil"}, true
+		}
+		v := "0"
+		if n.Big != "" {
+			if bv, ok := smtInt(m[n.Big]); ok {
+				v = bv
+			}
+		}
+		return map[string]interface{}{"k": "big", "id": ref, "v": v}, true
+	case "ptr":
+		ref, ok := smtInt(m[n.Term])
+		if !ok {
+			return nil, false
+		}
+		if ref == "0" {
+			return map[string]interface{}{"k": "nil"}, true
+		}
+		fs := map[string]interface{}{}
+		for i, f := range n.Fields {
+			if s, ok := f.spec(m); ok {
+				fs[n.Names[i]] = s
+			}
+		}
+		return map[string]interface{}{"k": "ptr", "id": ref, "f": fs}, true
+	case "struct":
+		fs := map[string]interface{}{}
+		for i, f := range n.Fields {
+			if s, ok := f.spec(m); ok {
+				fs[n.Names[i]] = s
+			}
+		}
+		return map[string]interface{}{"k": "struct", "f": fs}, true
+	case "array":
+		var vs []string
+		for _, e := range n.Elems {
+			v, ok := smtInt(m[e])
+			if !ok {
+				v = "0"
+			}
+			vs = append(vs, v)
+		}
+		return map[string]interface{}{"k": "array", "v": vs}, true
+	case "bytes":
+		if m[app("=", n.Term, "nilslice")] == "true" {
+			return map[string]interface{}{"k": "nil"}, true
+		}
+		ln, ok := smtInt(m[n.Len])
+		if !ok {
+			return nil, false
+		}
+		var l int
+		fmt.Sscan(ln, &l)
+		if l > len(n.Elems) {
+			return nil, false
+		}
+		vs := []string{}
+		for _, e := range n.Elems[:l] {
+			v, ok := smtInt(m[e])
+			if !ok {
+				v = "0"
+			}
+			vs = append(vs, v)
+		}
+		return map[string]interface{}{"k": "bytes", "v": vs}, true
+	}
+	return nil, false
+}
+
+// observe flattens the scalar observables of a tree under a model: path -> value.
+func (n *vnode) observe(m modelVals, out map[string]string) {
+	switch n.Kind {
+	case "int":
+		if v, ok := smtInt(m[n.Term]); ok {
+			out[n.Path] = v
+		}
+	case "bool":
+		out[n.Path] = m[n.Term]
+	case "nilonly":
+		if v, ok := smtInt(m[n.Term]); ok {
+			if v == "0" {
+				out[n.Path+"#nil"] = "true"
+			} else {
+				out[n.Path+"#nil"] = "false"
+			}
+		}
+	case "big":
+		if v, ok := smtInt(m[n.Term]); ok {
+			if v == "0" {
+				out[n.Path+"#nil"] = "true"
+			} else {
+				out[n.Path+"#nil"] = "false"
+				if n.Big != "" {
+					if bv, ok := smtInt(m[n.Big]); ok {
+						out[n.Path] = bv
+					}
+				}
+			}
+		}
+	case "ptr":
+		if v, ok := smtInt(m[n.Term]); ok {
+			if v == "0" {
+				out[n.Path+"#nil"] = "true"
+				return
+			}
+			out[n.Path+"#nil"] = "false"
+		}
+		for _, f := range n.Fields {
+			f.observe(m, out)
+		}
+	case "struct":
+		for _, f := range n.Fields {
+			f.observe(m, out)
+		}
+	}
+}
+
+func goFuncExpr(fn *ssa.Function) (expr string, ok bool) {
+	if fn.Signature.Recv() == nil {
+		return fn.Name(), true
+	}
+	rt := fn.Signature.Recv().Type()
+	star := ""
+	if p, isP := rt.(*types.Pointer); isP {
+		star = "*"
+		rt = p.Elem()
+	}
+	nt, isN := rt.(*types.Named)
+	if !isN {
+		return "", false
+	}
+	return "(" + star + nt.Obj().Name() + ")." + fn.Name(), true
+}
+
+const replayTestTemplate = `package %s
+
+import (
+	"encoding/json"
+	"fmt"
+	"math/big"
+	"reflect"
+	"testing"
+	"unsafe"
+%s
+)
+
+var _ = big.NewInt
+var _ = unsafe.Pointer(nil)
+
+func zzSet(dst reflect.Value, v reflect.Value) {
+	if !dst.CanSet() {
+		dst = reflect.NewAt(dst.Type(), unsafe.Pointer(dst.UnsafeAddr())).Elem()
+	}
+	dst.Set(v)
+}
+
+func zzBuild(t reflect.Type, s map[string]interface{}, objs map[string]reflect.Value) reflect.Value {
+	v := reflect.New(t).Elem()
+	if s == nil {
+		return v
+	}
+	switch s["k"] {
+	case "int":
+		n, _ := new(big.Int).SetString(s["v"].(string), 10)
+		switch t.Kind() {
+		case reflect.Int, reflect.Int8, reflect.Int16, reflect.Int32, reflect.Int64:
+			v.SetInt(n.Int64())
+		case reflect.Uint, reflect.Uint8, reflect.Uint16, reflect.Uint32, reflect.Uint64, reflect.Uintptr:
+			v.SetUint(n.Uint64())
+		}
+	case "bool":
+		v.SetBool(s["v"].(bool))
+	case "big":
+		id := "big" + s["id"].(string)
+		if o, ok := objs[id]; ok {
+			return o
+		}
+		n, _ := new(big.Int).SetString(s["v"].(string), 10)
+		o := reflect.ValueOf(n)
+		objs[id] = o
+		return o
+	case "ptr":
+		id := t.String() + s["id"].(string)
+		if o, ok := objs[id]; ok {
+			return o
+		}
+		o := reflect.New(t.Elem())
+		objs[id] = o
+		zzFill(o.Elem(), s["f"].(map[string]interface{}), objs)
+		return o
+	case "struct":
+		zzFill(v, s["f"].(map[string]interface{}), objs)
+	case "array":
+		for i, e := range s["v"].([]interface{}) {
+			n, _ := new(big.Int).SetString(e.(string), 10)
+			if i < v.Len() {
+				v.Index(i).SetUint(n.Uint64())
+			}
+		}
+	case "bytes":
+		es := s["v"].([]interface{})
+		b := make([]byte, len(es))
+		for i, e := range es {
+			n, _ := new(big.Int).SetString(e.(string), 10)
+			b[i] = byte(n.Uint64())
+		}
+		v = reflect.ValueOf(b).Convert(t)
+	}
+	return v
+}
+
+func zzFill(dst reflect.Value, fs map[string]interface{}, objs map[string]reflect.Value) {
+	for name, fv := range fs {
+		f := dst.FieldByName(name)
+		if !f.IsValid() {
+			continue
+		}
+		zzSet(f, zzBuild(f.Type(), fv.(map[string]interface{}), objs))
+	}
+}
+
+func zzObserve(path string, v reflect.Value, depth int, out map[string]string) {
+	if !v.IsValid() {
+		return
+	}
+	if !v.CanInterface() && v.CanAddr() {
+		v = reflect.NewAt(v.Type(), unsafe.Pointer(v.UnsafeAddr())).Elem()
+	}
+	if v.Type() == reflect.TypeOf((*big.Int)(nil)) {
+		if v.IsNil() {
+			out[path+"#nil"] = "true"
+		} else {
+			out[path+"#nil"] = "false"
+			out[path] = v.Interface().(*big.Int).String()
+		}
+		return
+	}
+	switch v.Kind() {
+	case reflect.Int, reflect.Int8, reflect.Int16, reflect.Int32, reflect.Int64:
+		out[path] = fmt.Sprint(v.Int())
+	case reflect.Uint, reflect.Uint8, reflect.Uint16, reflect.Uint32, reflect.Uint64, reflect.Uintptr:
+		out[path] = fmt.Sprint(v.Uint())
+	case reflect.Bool:
+		out[path] = fmt.Sprint(v.Bool())
+	case reflect.Ptr:
+		if v.IsNil() {
+			out[path+"#nil"] = "true"
+			return
+		}
+		out[path+"#nil"] = "false"
+		if depth < 2 && v.Elem().Kind() == reflect.Struct {
+			zzObserve(path, v.Elem(), depth, out)
+		}
+	case reflect.Struct:
+		for i := 0; i < v.NumField(); i++ {
+			f := v.Field(i)
+			fp := path + "." + v.Type().Field(i).Name
+			switch f.Kind() {
+			case reflect.Ptr, reflect.Struct:
+				if f.Type() == reflect.TypeOf((*big.Int)(nil)) || depth < 1 {
+					zzObserve(fp, f, depth+1, out)
+				} else if f.Kind() == reflect.Ptr {
+					out[fp+"#nil"] = fmt.Sprint(f.IsNil())
+				}
+			case reflect.Interface, reflect.Map, reflect.Chan, reflect.Func, reflect.Slice:
+				out[fp+"#nil"] = fmt.Sprint(f.IsNil())
+			default:
+				zzObserve(fp, f, depth+1, out)
+			}
+		}
+	case reflect.Interface, reflect.Map, reflect.Chan, reflect.Func, reflect.Slice:
+		out[path+"#nil"] = fmt.Sprint(v.IsNil())
+	}
+}
+
+func TestZZVerifReplay(t *testing.T) {
+	var spec struct {
+		Args    []map[string]interface{}
+		Lookups []struct {
+			Present bool
+			Key     map[string]interface{}
+			Val     map[string]interface{}
+		}
+	}
+	if err := json.Unmarshal([]byte(%s), &spec); err != nil {
+		t.Fatal(err)
+	}
+	objs := map[string]reflect.Value{}
+	fn := reflect.ValueOf(%s)
+	args := make([]reflect.Value, fn.Type().NumIn())
+	for i := range args {
+		args[i] = zzBuild(fn.Type().In(i), spec.Args[i], objs)
+	}
+%s
+	var outs []reflect.Value
+	pv := func() (p interface{}) {
+		defer func() { p = recover() }()
+		outs = fn.Call(args)
+		return nil
+	}()
+	obs := map[string]string{}
+	obs["panicked"] = fmt.Sprint(pv != nil)
+	if pv != nil {
+		obs["panic"] = fmt.Sprint(pv)
+	}
+	for i, o := range outs {
+		zzObserve(fmt.Sprintf("res%%d", i), o, 1, obs)
+	}
+	for i, a := range args {
+		zzObserve(fmt.Sprintf("arg%%d", i), a, 0, obs)
+	}
+	js, _ := json.Marshal(obs)
+	fmt.Println("VERIF-REPLAY-RESULT " + string(js))
+}
+`
+
+// tryReplay renders the model of a failed obligation as a Go test against the real function and compares outputs.
+func tryReplay(o checkOpts, r *ObligResult, p *Prog, base string, model map[string]string) (confirmed bool, testPath string, output string) {
+	g := r.O.Gen
+	rp := g.replay
+	if rp == nil || (r.O.Kind != "ensures" && r.O.Kind != "panic" && r.O.Kind != "frame") || len(g.inlineStk) > 0 {
+		return false, "", ""
+	}
+	if r.O.Kind == "panic" && strings.Contains(r.O.Name, "#"+"(") {
+		// panic inside an inlined callee: still observable as a panic of the root function
+	}
+	// 1. second solver call: values of all terms of the plan
+	script := r.O.Script(false)
+	var terms []string
+	seen := map[string]bool{}
+	for _, t := range rp.terms {
+		if !seen[t] {
+			seen[t] = true
+			terms = append(terms, t)
+		}
+	}
+	if len(terms) == 0 {
+		return false, "", ""
+	}
+	script += "(get-value (" + strings.Join(terms, "\n ") + "))\n"
+	qfile := base + ".model.smt2"
+	os.WriteFile(qfile, []byte(script), 0o644)
+	solver := "z3-new"
+	if r.Res.Solver == "z3" || r.Res.Solver == "cvc5" {
+		solver = r.Res.Solver
+	}
+	args := []string{"-T:30", qfile}
+	if solver == "cvc5" {
+		args = []string{"--tlimit=30000", qfile}
+	}
+	outb, _ := exec.Command(solver, args...).CombinedOutput()
+	outs := string(outb)
+	if !strings.HasPrefix(strings.TrimSpace(outs), "sat") {
+		return false, "", "model query: " + firstLines(outs, 3)
+	}
+	m := modelVals(parseGetValueTerms(outs, terms))
+	// 2. input specification
+	type lk struct {
+		Present bool
+		Key     map[string]interface{}
+		Val     map[string]interface{}
+	}
+	spec := struct {
+		Args    []map[string]interface{}
+		Lookups []lk
+	}{}
+	for _, a := range rp.args {
+		s, ok := a.spec(m)
+		if !ok {
+			return false, "", "argument " + a.Path + " cannot be rendered from the model"
+		}
+		if s["k"] == "opaque" {
+			return false, "", "argument " + a.Path + " has a type that cannot be rendered (interface, map, function, channel)"
+		}
+		spec.Args = append(spec.Args, s)
+	}
+	imports := ""
+	globalsCode := ""
+	for i, l := range rp.lookups {
+		n := rp.lvals[i]
+		if n == nil {
+			continue
+		}
+		if l.global == nil || !l.global.Object().Exported() && l.global.Pkg != rp.fn.Pkg {
+			return false, "", "the function reads a map that cannot be set from a test"
+		}
+		kv, ok := smtInt(m[l.key])
+		if !ok {
+			return false, "", "map key not renderable"
+		}
+		vs, ok := n.spec(m)
+		if !ok {
+			return false, "", "map value not renderable"
+		}
+		spec.Lookups = append(spec.Lookups, lk{Present: m[n.Len] == "true", Key: map[string]interface{}{"k": "int", "v": kv}, Val: vs})
+		gname := l.global.Name()
+		if l.global.Pkg != rp.fn.Pkg {
+			imports += fmt.Sprintf("\tzzpkg%d %q\n", i, l.global.Pkg.Pkg.Path())
+			gname = fmt.Sprintf("zzpkg%d.%s", i, l.global.Name())
+		}
+		j := len(spec.Lookups) - 1
+		globalsCode += fmt.Sprintf(`	{
+		mv := reflect.ValueOf(&%s).Elem()
+		if mv.IsNil() {
+			mv.Set(reflect.MakeMap(mv.Type()))
+		}
+		k := zzBuild(mv.Type().Key(), spec.Lookups[%d].Key, objs)
+		saved := mv.MapIndex(k)
+		defer mv.SetMapIndex(k, saved)
+		if spec.Lookups[%d].Present {
+			mv.SetMapIndex(k, zzBuild(mv.Type().Elem(), spec.Lookups[%d].Val, objs))
+		} else {
+			mv.SetMapIndex(k, reflect.Value{})
+		}
+	}
+`, gname, j, j, j)
+	}
+	fexpr, ok := goFuncExpr(rp.fn)
+	if !ok {
+		return false, "", "function expression not renderable"
+	}
+	specJSON, _ := json.Marshal(spec)
+	pkgName := rp.fn.Pkg.Pkg.Name()
+	src := fmt.Sprintf(replayTestTemplate, pkgName, imports, fmt.Sprintf("%q", string(specJSON)), fexpr, globalsCode)
+	testPath = base + "_replay_test.go"
+	os.WriteFile(testPath, []byte(src), 0o644)
+	rel := strings.TrimPrefix(strings.TrimPrefix(rp.fn.Pkg.Pkg.Path(), modPath), "/")
+	target := filepath.Join(o.repo, rel, "zz_verif_replay_test.go")
+	ov := map[string]interface{}{"Replace": map[string]string{target: testPath}}
+	// mutants applied in memory must also be applied to the replayed build
+	for path, content := range o.overlay {
+		tmp := base + ".ov." + fileSafe(filepath.Base(path))
+		os.WriteFile(tmp, content, 0o644)
+		ov["Replace"].(map[string]string)[path] = tmp
+	}
+	ovPath := base + ".overlay.json"
+	writeJSON(ovPath, ov)
+	cmd := exec.Command("bash", "-c", fmt.Sprintf("ulimit -v 8000000; cd %s && go test -v -overlay %s -vet=off -count=1 -timeout 60s -run '^TestZZVerifReplay$' ./%s/ 2>&1", o.repo, ovPath, rel))
+	cmd.Env = append(os.Environ(), "GOFLAGS=-mod=mod", "GOPROXY=off", "GOSUMDB=off", "GOTOOLCHAIN=local")
+	tout, _ := cmd.CombinedOutput()
+	output = string(tout)
+	idx := strings.Index(output, "VERIF-REPLAY-RESULT ")
+	if idx < 0 {
+		return false, testPath, output
+	}
+	line := output[idx+len("VERIF-REPLAY-RESULT "):]
+	if j := strings.Index(line, "\n"); j >= 0 {
+		line = line[:j]
+	}
+	real := map[string]string{}
+	if json.Unmarshal([]byte(line), &real) != nil {
+		return false, testPath, output
+	}
+	// 3. compare with the model's predictions
+	if r.O.Kind == "panic" {
+		if real["panicked"] == "true" {
+			return true, testPath, "the real function panics on the model's input: " + real["panic"]
+		}
+		return false, testPath, "the real function does not panic on the model's input\n" + line
+	}
+	if real["panicked"] == "true" {
+		return false, testPath, "the real function panics on the model's input (the clause is about normal return)\n" + line
+	}
+	pred := map[string]string{}
+	for _, n := range rp.results {
+		n.observe(m, pred)
+	}
+	for _, n := range rp.post {
+		n.observe(m, pred)
+	}
+	var diffs []string
+	ncmp := 0
+	for k, v := range pred {
+		rv, ok := real[k]
+		if !ok {
+			continue
+		}
+		ncmp++
+		if rv != v {
+			diffs = append(diffs, fmt.Sprintf("%s: model %s, real %s", k, v, rv))
+		}
+	}
+	if len(diffs) > 0 {
+		return false, testPath, "real outputs differ from the model's prediction: " + strings.Join(diffs, "; ") + "\n" + line
+	}
+	if ncmp == 0 {
+		return false, testPath, "no comparable observable\n" + line
+	}
+	return true, testPath, fmt.Sprintf("the real function's %d observable outputs (results and post-state of the arguments) equal the values of the falsifying model\n%s", ncmp, line)
+}
+
+// parseGetValueTerms parses "((t1 v1) (t2 v2) …)" where the terms are echoed; pairs are matched by position.
+func parseGetValueTerms(out string, terms []string) map[string]string {
+	res := map[string]string{}
+	i := strings.Index(out, "((")
+	if i < 0 {
+		return res
+	}
+	body := out[i+1:]
+	depth := 0
+	start := -1
+	inq := false
+	var pairs []string
+	for k := 0; k < len(body); k++ {
+		c := body[k]
+		if c == '|' {
+			inq = !inq
+		}
+		if inq {
+			continue
+		}
+		if c == '(' {
+			if depth == 0 {
+				start = k
+			}
+			depth++
+		} else if c == ')' {
+			depth--
+			if depth == 0 && start >= 0 {
+				pairs = append(pairs, body[start+1:k])
+				start = -1
+			}
+			if depth < 0 {
+				break
+			}
+		}
+	}
+	for idx, pr := range pairs {
+		if idx >= len(terms) {
+			break
+		}
+		// value = the last top-level s-expression of the pair
+		pr = strings.TrimSpace(pr)
+		d := 0
+		q := false
+		last := 0
+		for k := 0; k < len(pr); k++ {
+			c := pr[k]
+			if c == '|' {
+				q = !q
+			}
+			if q {
+				continue
+			}
+			if c == '(' {
+				d++
+			} else if c == ')' {
+				d--
+			} else if (c == ' ' || c == '\n') && d == 0 {
+				last = k + 1
+			}
+		}
+		res[terms[idx]] = strings.TrimSpace(pr[last:])
+	}
+	return res
+}
 
 // writeReplay records a failed obligation: the obligation, the solver's answer and model values, the script.
 func writeReplay(dir string, o checkOpts, r *ObligResult, p *Prog) string {
@@ -34,13 +855,17 @@ func writeReplay(dir string, o checkOpts, r *ObligResult, p *Prog) string {
 		rec["note"] = "violation of a clause with a listed known finding, but OUTSIDE the listed region: a different defect"
 	}
 	r.Replayed = false
-	if r.Res.Status == "sat" {
-		if ok, testPath, outp := tryReplay(o, r, p, base, model); testPath != "" {
+	if r.Res.Status == "sat" && !o.noReplay {
+		ok, testPath, outp := tryReplay(o, r, p, base, model)
+		if testPath != "" {
 			rec["replay_test"] = testPath
-			rec["replay_output"] = firstLines(outp, 40)
-			rec["replay_confirmed"] = ok
-			r.Replayed = ok
+			rec["replay_cmd"] = fmt.Sprintf("cd %s && go test -overlay %s.overlay.json -vet=off -count=1 -run '^TestZZVerifReplay$' ./<pkg>/", o.repo, base)
 		}
+		if outp != "" {
+			rec["replay_output"] = firstLines(outp, 40)
+		}
+		rec["replay_confirmed"] = ok
+		r.Replayed = ok
 	}
 	if !r.Replayed {
 		if r.Res.Status == "sat" {
@@ -48,55 +873,23 @@ func writeReplay(dir string, o checkOpts, r *ObligResult, p *Prog) string {
 		} else {
 			rec["explanation"] = "the obligation is discharged on the committed tree and is not accepted by the verifier on this tree (solver: " + r.Res.Status + "); no counterexample available (no-failing-input-found)"
 		}
+	} else {
+		rec["explanation"] = "counterexample confirmed against the real code: the function was run on the model's inputs and its observable outputs equal the model's, so the clause is violated by the real code on this input"
 	}
 	writeJSON(base+".json", rec)
 	return base + ".json"
 }
 
-// parseGetValue extracts "(term value)" pairs from a get-value answer, in the order of names.
+// parseGetValue extracts the values of an in-script get-value answer, in the order of names.
 func parseGetValue(out string, names []string) map[string]string {
+	terms := make([]string, len(names))
+	for i := range names {
+		terms[i] = fmt.Sprint(i)
+	}
+	vals := parseGetValueTerms(out, terms)
 	res := map[string]string{}
-	i := strings.Index(out, "((")
-	if i < 0 {
-		return res
-	}
-	body := out[i+1:]
-	// split top-level pairs
-	depth := 0
-	start := -1
-	var pairs []string
-	for k := 0; k < len(body); k++ {
-		switch body[k] {
-		case '(':
-			if depth == 0 {
-				start = k
-			}
-			depth++
-		case ')':
-			depth--
-			if depth == 0 && start >= 0 {
-				pairs = append(pairs, body[start+1:k])
-				start = -1
-			}
-			if depth < 0 {
-				k = len(body)
-			}
-		}
-	}
-	for idx, pr := range pairs {
-		if idx >= len(names) {
-			break
-		}
-		// the term is first; value is the rest. Terms are symbols (possibly |quoted|).
-		pr = strings.TrimSpace(pr)
-		var val string
-		if strings.HasPrefix(pr, "|") {
-			j := strings.Index(pr[1:], "|")
-			val = strings.TrimSpace(pr[j+2:])
-		} else if j := strings.IndexAny(pr, " \n\t"); j >= 0 {
-			val = strings.TrimSpace(pr[j+1:])
-		}
-		res[names[idx]] = val
+	for i, n := range names {
+		res[n] = vals[fmt.Sprint(i)]
 	}
 	return res
 }
